@@ -282,6 +282,7 @@ type c10Method struct {
 	panicCond string
 	seqCond   string
 	guards    []string // "panic" / "sequential" in source order
+	guardTopo []string // topologies let through by a `switch m.topology { case …: default: panic }` before the workers start
 	defs      []c10Def
 	workers   string
 	goArgs    [2]string
@@ -444,6 +445,30 @@ func c10ExtractMethod(fset *token.FileSet, fd *ast.FuncDecl, all map[string]*ast
 				}
 				m.defs = append(m.defs, c10Def{name: lhs, params: "(n size : Int)", typ: "Int", body: body, src: fset.Position(st.Pos()).String()})
 				env[lhs] = "(" + lhs + " n size)"
+			}
+		case *ast.SwitchStmt:
+			// `switch m.topology { case A, B, C: default: panic(…) }` before the workers start: unsupported topologies are
+			// rejected in the caller's goroutine
+			if sawLoop || s.Init != nil || c10Key(s.Tag) != recv+".topology" || len(s.Body.List) != 2 || m.guardTopo != nil {
+				return nil, c10err(fset, st, "%s: switch of unknown shape", m.name)
+			}
+			for _, cl := range s.Body.List {
+				cc := cl.(*ast.CaseClause)
+				if cc.List == nil {
+					if !c10IsPanicBlock(&ast.BlockStmt{List: cc.Body}) {
+						return nil, c10err(fset, cc, "%s: default of the topology guard does not panic", m.name)
+					}
+					continue
+				}
+				if len(cc.Body) != 0 {
+					return nil, c10err(fset, cc, "%s: topology guard case has a body", m.name)
+				}
+				for _, t := range cc.List {
+					m.guardTopo = append(m.guardTopo, c10Key(t))
+				}
+			}
+			if len(m.guardTopo) == 0 {
+				return nil, c10err(fset, st, "%s: topology guard lets nothing through", m.name)
 			}
 		case *ast.ForStmt:
 			if sawLoop {
@@ -1047,6 +1072,8 @@ func c10Mesh(fset *token.FileSet, o *c10Out, path string) error {
 				specNames = append(specNames, m.name+"/"+c.topo+"|"+m.name+".spec_"+c.topo)
 			}
 			o.p("def topologies : List String := %s", c10StrList(topos))
+			o.p("/-- topologies let through by the `switch m.topology { case …: default: panic }` BEFORE the workers start (none: no such guard) -/")
+			o.p("def guardedTopologies : List String := %s", c10StrList(m.guardTopo))
 		} else {
 			o.p("def spec : PartSpec where")
 			o.p("  workers := workers")
